@@ -8,6 +8,8 @@ import RbpfModel.Model.WellFormed
 import RbpfModel.Model.AsmSpec
 import RbpfModel.Model.Disasm
 import RbpfModel.Generated.DisasmRows
+import RbpfModel.Generated.VerifierArms
+import RbpfModel.Model.Verifier
 namespace Rbpf
 open Rbpf.Generated
 
@@ -76,5 +78,29 @@ def disasmRowOk (row : String × String × String) : Bool :=
 theorem Consts_disasm_rows : disasmRows.all disasmRowOk = true := by decide +kernel
 
 theorem Consts_disasm_rows_count : disasmRows.length = 119 := by decide +kernel
+
+end Rbpf
+
+/-! ### the arm table of the verifier (`fn check` of `src/verifier.rs`), translated -/
+namespace Rbpf
+open Rbpf.Generated
+
+/-- the tag the translator gives an arm ↦ the model's arm (`exit` is an empty arm like `plain`) -/
+def verifierTag : Verifier.Arm → String
+  | .plain => "plain" | .exit => "plain" | .lddw => "lddw" | .store => "store" | .xadd => "xadd" | .endian => "endian"
+  | .jump => "jump" | .call => "call" | .tailCall => "reject" | .unknown => "reject"
+
+/-- what the real `match insn.opc` does for opcode byte `o`: its arm if it has one, else the default arm -/
+def verifierSrcArm (o : Nat) : String :=
+  match verifierArms.find? (·.1 == o) with
+  | some r => r.2.2
+  | none => verifierDefault
+
+/-- for each of the 256 opcode bytes the model's arm table (`Verifier.arm`) is the source's — the same checks for the same opcodes,
+    unknown opcodes refused — no opcode has two arms, and after the match the source runs `check_registers` and advances by one slot -/
+theorem Consts_verifier_arms :
+    (∀ o : Fin 256, verifierTag (Verifier.arm o.val) = verifierSrcArm o.val) ∧
+    (verifierArms.map (·.1)).Nodup ∧ verifierAfterMatch = true ∧ verifierDefault = "reject" := by
+  decide +kernel
 
 end Rbpf
